@@ -741,7 +741,10 @@ func (self *PrivateDotExpression) Idx1() file.Idx  { return self.Identifier.Idx1
 func (self *FunctionLiteral) Idx1() file.Idx       { return self.Body.Idx1() }
 func (self *ClassLiteral) Idx1() file.Idx          { return self.RightBrace + 1 }
 func (self *ArrowFunctionLiteral) Idx1() file.Idx  { return self.Body.Idx1() }
-func (self *Identifier) Idx1() file.Idx            { return file.Idx(int(self.Idx) + len(self.Name)) }
+func (self *Identifier) Idx1() file.Idx {
+	// Name is a unistring: for a non-ASCII name len(Name) is the size of its UTF-16 storage, not of the source text
+	return file.Idx(int(self.Idx) + len(self.Name.String()))
+}
 func (self *NewExpression) Idx1() file.Idx {
 	if self.ArgumentList != nil {
 		return self.RightParenthesis + 1
